@@ -167,10 +167,14 @@ class VGen(Gen):
         if target == "int":
             return {"cid": cid, "compat": ["str", "int"], "fn": {"f": "intFromDigits"}}
         if target == "list":
+            if r.random() < 0.4:
+                return {"cid": cid, "compat": ["list", "tuple", "int"], "fn": {"f": "listTail"}}
             return {"cid": cid, "compat": ["list", "tuple"], "fn": {"f": "listFromTuple"}}
         if target == "set":
             return {"cid": cid, "compat": ["list", "set"], "fn": {"f": "setFromList"}}
         if target == "tuple":
+            if r.random() < 0.4:
+                return {"cid": cid, "compat": ["list", "tuple", "int"], "fn": {"f": "tupleTail"}}
             return {"cid": cid, "compat": ["list", "set", "tuple"], "fn": {"f": "tupleFromAny"}}
         if target == "dict":
             return {"cid": cid, "compat": ["list", "dict"], "fn": {"f": "dictFromPairs"}}
@@ -405,6 +409,8 @@ class VGen(Gen):
         nv = {"k": "none", "vid": DEFAULT_NONE_VID, "coerce": None}
         if self.chance(0.2):
             nv = {"k": "none", "vid": self.vid(), "coerce": None}
+            if self.chance(0.4):
+                nv["coerce"] = {"cid": self.cb(), "compat": ["none", "str"], "fn": {"f": "ifTy", "ty": "str"}}
         return {"k": "optional", "vid": self.vid(), "noneV": nv, "inner": self.gen_v(depth, hashable=hashable)}
 
     def gen_maybe(self, depth: int, hashable: bool = False) -> dict:
@@ -478,6 +484,12 @@ class VGen(Gen):
                 xs = self.distinct([x for x in xs if is_hashable_desc(x)])
                 if isinstance(v.get("coerce"), dict) and self.chance(0.4):
                     t = "list"
+            if isinstance(v.get("coerce"), dict) and v["coerce"]["fn"]["f"] in ("tupleTail", "listTail"):
+                if self.chance(0.15):
+                    return I(r.choice([0, 1, 7]))
+                if t != {"tupleTail": "tuple", "listTail": "list"}[v["coerce"]["fn"]["f"]]:
+                    # the coercer drops the first element: one more, so that the result has the intended length
+                    xs = [self.conform(v["item"], depth + 1, rec_depth)] + xs
             return {"t": t, "oid": self.oid(), "xs": xs}
         if k == "ntuple":
             xs = [self.conform(f, depth + 1, rec_depth) for f in v["fields"]]
